@@ -1355,19 +1355,35 @@ fn judge(plan: &ReqPlan, obs: &RunObs, out: &mut Outcome) {
                             );
                         }
                     }
-                    Some(s) => out.violate(
-                        "C01",
-                        format!("auth:{}:{}:unauthorised-answered-{}", proto, auth_name(&r.auth), s),
-                        format!(
-                            "request {} ({} {}) with {:?} was answered {} instead of 407 (headers {:?})",
-                            i, r.method, r.target, r.auth, s, o.headers
-                        ),
-                    ),
-                    None => out.violate(
-                        "C01",
-                        format!("auth:{}:{}:unauthorised-not-answered", proto, auth_name(&r.auth)),
-                        format!("request {} with {:?} got no response: {:?}", i, r.auth, o.error),
-                    ),
+                    Some(s) => {
+                        out.violate(
+                            "C01",
+                            format!("auth:{}:{}:unauthorised-answered-{}", proto, auth_name(&r.auth), s),
+                            format!(
+                                "request {} ({} {}) with {:?} was answered {} instead of 407 (headers {:?})",
+                                i, r.method, r.target, r.auth, s, o.headers
+                            ),
+                        );
+                        // the same observation read as C10: the final response of a request that
+                        // fails authentication is 407
+                        out.violate(
+                            "C10",
+                            format!("resp:{}:authentication-failure-answered-{}", proto, s),
+                            format!("request {} ({} {}) with {:?}, request number {} of its session, was answered {} instead of 407", i, r.method, r.target, r.auth, i + 1, s),
+                        );
+                    }
+                    None => {
+                        out.violate(
+                            "C01",
+                            format!("auth:{}:{}:unauthorised-not-answered", proto, auth_name(&r.auth)),
+                            format!("request {} with {:?} got no response: {:?}", i, r.auth, o.error),
+                        );
+                        out.violate(
+                            "C10",
+                            format!("resp:{}:authentication-failure-not-answered", proto),
+                            format!("request {} with {:?} got no response: {:?}", i, r.auth, o.error),
+                        );
+                    }
                 }
                 continue;
             }
